@@ -472,7 +472,7 @@ func (c *trCtx) externalCall(fobj *types.Func, x *ast.CallExpr) (string, bool) {
 	if _, ok := trPinned[fobj.Origin().FullName()]; ok {
 		return "", false
 	}
-	if tf := c.t.funcs[fobj.Origin()]; tf != nil && (c.createMode() || !trCreateUnitSet[tf.unit]) {
+	if tf := c.t.funcs[fobj.Origin()]; tf != nil && (c.createMode() || !trCreateUnitSet[tf.unit]) && trFragsOf(tf) == nil { // (only fragments translated: not callable, trans_units_mapping.go)
 		return "", false // (the functions of the Create units are translated for those units only: trans_units_create.go)
 	}
 	if c.inCallback || c.createMode() {
